@@ -54,6 +54,11 @@ def _impl(tier, seed, search):
         M3 = b.skewa(S3); L.check('skewa-form se(2)', bool(np.all(M3[2, :] == 0) and np.allclose(M3[:2, :2], [[0, -x], [x, 0]]) and np.allclose(M3[:2, 2], a[:2])), dict(S=S3), 'skewa(3-vector) is not [skew(w) v; 0 0]')
         L.close('cross', b.cross(a, c), np.cross(a, c), T9, sa * sc, dict(a=a, b=c))
         L.close('norm', b.norm(a), float(np.linalg.norm(a)), T9, sa, dict(v=a)); L.close('normsq', b.normsq(a), float(np.dot(a, a)), T9, sa * sa, dict(v=a))
+        for ln_ in (1, 2, 4, 6):
+            vl = g.normal(size=ln_) * 10.0 ** g.uniform(-3, 3)
+            L.close(f'norm[len={ln_}]', b.norm(vl), float(np.linalg.norm(vl)), T9, float(np.max(np.abs(vl))), dict(v=vl), sig=f'norm:len{ln_}')
+            L.close(f'normsq[len={ln_}]', b.normsq(vl), float(np.dot(vl, vl)), T9, float(np.max(np.abs(vl))) ** 2, dict(v=vl), sig=f'normsq:len{ln_}')
+            L.close(f'norm(list)[len={ln_}]', b.norm(list(vl)), float(np.linalg.norm(vl)), T9, float(np.max(np.abs(vl))), dict(v=vl), sig=f'norm:len{ln_}')
         L.check('colvec', b.colvec(a).shape == (3, 1) and np.array_equal(b.colvec(a).flatten(), a), dict(v=a), 'colvec is not the column form')
         # adjoint
         T1 = inputs.se3(g, 3); T2 = inputs.se3(g, 3); S = np.r_[g.normal(size=3), g.normal(size=3)]
